@@ -581,6 +581,75 @@ class _Timeout(Exception): pass
 def _alarm(*a): raise _Timeout()
 signal.signal(signal.SIGALRM, _alarm)
 
+def export_puml_graph(g):
+    # the PUML graph as the Lean writer model reads it: nodes in insertion order, successors in the order the edges were added
+    from tel2puml.puml_graph import PUMLEventNode, PUMLOperatorNode, PUMLKillNode
+    from tel2puml.tel2puml_types import PUMLEvent
+    nodes = list(g.nodes)
+    idx = {id(n): i for i, n in enumerate(nodes)}
+    out = []
+    for n in nodes:
+        if isinstance(n, PUMLEventNode):
+            brk = PUMLEvent.BREAK in n.event_types
+            if n.extra_info.get("is_branch", False):
+                out.append(["unsupported", "branch event"])
+            elif n.sub_graph is not None:
+                out.append(["sub", PUMLEvent.LOOP in n.event_types, export_puml_graph(n.sub_graph), brk])
+            else:
+                out.append(["ev", n.node_type, brk])
+        elif isinstance(n, PUMLOperatorNode):
+            out.append(["oper", n.operator_type.value[0], n.operator_type.value[1]])
+        elif isinstance(n, PUMLKillNode):
+            out.append(["kill"])
+        else:
+            out.append(["unsupported", type(n).__name__])
+    return {"nodes": out, "adj": [[idx[id(m)] for m in g.adj[n]] for n in nodes]}
+
+_written = []
+def _capture_writer():
+    from tel2puml.puml_graph import PUMLGraph
+    if getattr(PUMLGraph, "_o2p_wrapped", False):
+        return
+    orig = PUMLGraph.write_puml_string
+    def wrapped(self, name="default_name", tab_size=4):
+        try:
+            exp = export_puml_graph(self)
+        except Exception as ex:
+            exp = {"export_error": repr(ex)[:200]}
+        text = orig(self, name, tab_size)
+        _written.append({"graph": exp, "name": name, "tab": tab_size, "text": text})
+        return text
+    PUMLGraph.write_puml_string = wrapped
+    PUMLGraph._o2p_wrapped = True
+
+def build_spec_graph(spec):
+    # a PUML graph from a plain description, through the graph's own constructors and node classes
+    from tel2puml.puml_graph import PUMLGraph, PUMLOperatorNode
+    from tel2puml.tel2puml_types import PUMLEvent, PUMLOperatorNodes
+    g = PUMLGraph()
+    made = []
+    for nd in spec["nodes"]:
+        if nd[0] == "ev":
+            made.append(g.create_event_node(nd[1], event_types=PUMLEvent.BREAK if nd[2] else None))
+        elif nd[0] == "sub":
+            types = tuple(t for t, on in ((PUMLEvent.LOOP, nd[1]), (PUMLEvent.BREAK, nd[3])) if on)
+            made.append(g.create_event_node("LOOP" if nd[1] else "SUB", event_types=types or None,
+                                            sub_graph=build_spec_graph(nd[2])))
+        elif nd[0] == "oper":
+            ot = PUMLOperatorNodes((nd[1], nd[2]))
+            n = PUMLOperatorNode(operator_type=ot, occurrence=g.get_occurrence_count(ot.value))
+            g.add_puml_node(n)
+            g.increment_occurrence_count(ot.value)
+            made.append(n)
+        elif nd[0] == "kill":
+            made.append(g.create_kill_node())
+        else:
+            raise ValueError("node " + str(nd[0]))
+    for u, vs in enumerate(spec["adj"]):
+        for v in vs:
+            g.add_puml_edge(made[u], made[v])
+    return g
+
 def dump_model(events):
     return sorted(({"typ": e.event_type,
              "outs": sorted(sorted(s.to_list()) for s in e.event_sets),
@@ -633,11 +702,16 @@ def handle(req):
                 path = req["model_path"]
                 if os.path.exists(path):
                     _, events = load_events_from_file(path)
+            if req.get("want_graph"):
+                _capture_writer()
+                del _written[:]
             text = _p.pv_to_puml_string(chunk, req.get("name", "wf"), events=events)
             texts.append(text)
             if req.get("through_files"):
                 save_events_to_file(req.get("name", "wf"), events, req["model_path"])
         rep = {"text": texts[-1], "texts": texts, "model": dump_model(events)}
+        if req.get("want_graph") and _written:
+            rep["written"] = _written[-1]
         if req.get("through_files"):
             with open(req["model_path"]) as f:
                 rep["file"] = json.load(f)
@@ -826,9 +900,23 @@ def handle(req):
             try:
                 g = PUMLGraph()
                 emit_seq(g, blk[1], [])
-                out.append({"text": g.write_puml_string("wf")})
+                out.append({"text": g.write_puml_string("wf"), "graph": export_puml_graph(g)})
             except Exception as ex:
                 out.append({"error": f"{type(ex).__name__}: {str(ex)[:200]}"})
+        return {"results": out}
+    if op == "write_spec":
+        out = []
+        for spec in req["specs"]:
+            try:
+                g = build_spec_graph(spec)
+            except Exception as ex:
+                out.append({"build_error": f"{type(ex).__name__}: {str(ex)[:200]}"})
+                continue
+            exp = export_puml_graph(g)
+            try:
+                out.append({"text": g.write_puml_string(spec.get("name", "wf"), spec.get("tab", 4)), "graph": exp})
+            except Exception as ex:
+                out.append({"raises": f"{type(ex).__name__}: {str(ex)[:200]}", "graph": exp})
         return {"results": out}
     if op == "loops":
         events = update_and_create_events_from_clustered_pvevents(req["jobs"], add_dummy_start=True)
